@@ -187,6 +187,8 @@ def _run_unit(args):
     for t in spec.targets:
         rel = t.split(":")[0]
         files.setdefault(rel, file_digest(os.path.join(REPO, rel)))
+    for rel in sorted(getattr(ctx, "extra_files", ())):     # files a unit read (AST) without executing them
+        files.setdefault(rel, file_digest(os.path.join(REPO, rel)))
     res.update(obligations=ctx.obligations, trusted=sorted(ctx.trusted), assumptions=sorted(ctx.assumptions),
                failures=ctx.failures, evaluations=ctx.evaluations, distinct=len(ctx.distinct), samples=ctx.samples,
                rule=ctx.rule, paths=ctx.paths, solver_s=round(ctx.solver_s, 3), functions=ctx.functions,
